@@ -109,6 +109,10 @@ func init() {
 	add(word("$0", wPE("0")))
 	add(word("${v}", wPEB("v", "", nil)))
 	add(word("${10}", wPEB("10", "", nil)))
+	// parameter names with multi-byte letters
+	add(word("$é", wPE("é")))
+	add(word("${é}", wPEB("é", "", nil)))
+	add(word("${é:-w}", wPEB("é", ":-", ast.Word{wLit("w")})))
 	// positional parameters whose number does not fit an int32 / int64 / uint64
 	for _, n := range []string{"4294967296", "9223372036854775807", "9223372036854775808", "18446744073709551615", "99999999999999999999"} {
 		add(word("${"+n+"}", wPEB(n, "", nil)))
@@ -127,6 +131,8 @@ func init() {
 	add(word("${v:-$w}", wPEB("v", ":-", ast.Word{wPE("w")})))
 	add(word("$(c)", wCS(true, simpleCmd("c"))))
 	add(word("$(c d)", wCS(true, simpleCmd("c", "d"))))
+	add(word("$(x)", wCS(true, simpleCmd("x"))))
+	add(word("`x`", wCS(false, simpleCmd("x"))))
 	add(word("`c`", wCS(false, simpleCmd("c"))))
 	// two-character operators inside substitutions
 	andOr := func(op string) ast.Command {
